@@ -11,10 +11,16 @@ def GoodC (c : Cfg) (p : Pool) : Prop := Good c.size0 true p
 def BaseC (_ : Cfg) (p : Pool) : Prop := ∃ cap : Cap, Good cap true p
 
 /-- the strict variant: additionally no task was ever lost (no `KeyError` in a wrapper, nothing dropped while it held
-a slot) and no background call exists; an invariant of histories without `flush` / `gather_and_close` / `until_closed` -/
+a slot) and no `gather_and_close` call exists; an invariant of histories without `gather_and_close` -/
 def StrictC (_ : Cfg) (p : Pool) : Prop := ∃ cap : Cap, Good cap false p
 
 def noAsync : Op → Bool := fun o => !o.isAsync
+
+/-- histories without `gather_and_close` (any number of concurrent `flush` and `until_closed` calls allowed) -/
+def noGac : Op → Bool := fun o => !o.isGac
+
+theorem noGac_of_noAsync (o : Op) (h : noAsync o = true) : noGac o = true := by
+  cases o <;> simp_all [noAsync, noGac, Op.isAsync, Op.isGac]
 
 def noSetSize : Op → Bool := fun o => !o.isSetSize
 
@@ -26,7 +32,9 @@ theorem good_init (cap : Cap) (L : Bool) (simple : Option SpawnSpec) : Good cap 
    ⟨by simp [Pool.init], fun t h => by simp [Pool.init] at h, fun t h => by simp [Pool.init] at h,
     fun t h => by simp [Pool.init] at h, fun _ t tk h _ => by simp [Pool.init] at h⟩,
    ⟨by simp [Pool.init], fun i hi => by simp [Pool.init] at hi⟩,
-   fun t tk h => by simp [Pool.init] at h, fun _ => rfl, fun _ => rfl⟩,
+   fun t tk h => by simp [Pool.init] at h,
+   ⟨fun g G h => by simp [Pool.init] at h, fun a A g h => by simp [Pool.init] at h⟩,
+   fun _ => rfl, fun _ A hA => by simp [Pool.init] at hA⟩,
    ⟨fun t tk h _ => by simp [Pool.init] at h, fun m r h => by simp [Pool.init] at h,
     fun m r h => by simp [Pool.init] at h⟩⟩
 
@@ -51,7 +59,7 @@ theorem good_setSize {cap : Cap} {L : Bool} (p : Pool) (v : Int) (hg : Good cap 
   split
   · exact ⟨cap, hg⟩
   · exact ⟨.fin (v.toNat + heldL p.tasks + grantsL p.sem.waiters), ⟨⟨v.toNat, rfl, rfl⟩, hg.phase,
-      hg.reg.of_eq rfl rfl rfl rfl rfl, hg.grp.of_eq rfl rfl, hg.life.of_eq rfl rfl, hg.ll, hg.al⟩, hg.map.of_eq rfl rfl⟩
+      hg.reg.of_eq rfl rfl rfl rfl rfl, hg.grp.of_eq rfl rfl, hg.life.of_eq rfl rfl, hg.fl.frame rfl rfl (fun _ h => h), hg.ll, hg.al⟩, hg.map.of_eq rfl rfl⟩
 
 /-- phase and registry invariants (with *some* slot conservation) hold in every pool after **every** history,
 assignments to `pool_size` included -/
@@ -74,8 +82,8 @@ theorem baseC_invariant : PoolInvariant BaseC allOps where
     intro c p ⟨cap, hg⟩
     exact ⟨cap, (tame_of_eq p { p with emit := [] } rfl rfl).good hg⟩
 
-/-- without background calls the strict variant holds after every history (assignments to `pool_size` included) -/
-theorem strictC_invariant : PoolInvariant StrictC noAsync where
+/-- without `gather_and_close` the strict variant holds after every history (assignments to `pool_size` included) -/
+theorem strictC_invariant : PoolInvariant StrictC noGac where
   init := by
     intro c simple _
     exact ⟨c.size0, good_init c.size0 false simple⟩
@@ -86,7 +94,7 @@ theorem strictC_invariant : PoolInvariant StrictC noAsync where
     · cases o with
       | setSize v => exact good_setSize _ v h1
       | _ => simp [Op.isSetSize] at hs
-    · exact ⟨cap, Pool.good_applyOp _ o (by simpa using hs) (fun _ => by simpa [noAsync] using ho) h1⟩
+    · exact ⟨cap, Pool.good_applyOp _ o (by simpa using hs) (fun _ => by simpa [noGac] using ho) h1⟩
   run := by
     intro c p orders r ⟨cap, hg⟩
     exact ⟨cap, Pool.good_runRef _ r ((Pool.tame_setOrders p orders).good hg)⟩
@@ -133,10 +141,10 @@ theorem groupsAll (base : Nat) (h : History) (i : Nat) (c : Cfg) (p : Pool)
   obtain ⟨cap, hg⟩ := (World.reachable baseC_invariant base h (fun x _ => admits_all x)).inv i c p hc hp
   exact hg.grp
 
-/-- **no task is ever lost** in a history without `flush` / `gather_and_close` / `until_closed`: no wrapper ever
-hits the `KeyError` of a missing registry entry — whatever the mix of returns, exceptions, cancellations, callbacks
-and resizes -/
-theorem strictAll (base : Nat) (h : History) (hn : ∀ x ∈ h, x.admits noAsync = true) (i : Nat) (c : Cfg) (p : Pool)
+/-- **no task is ever lost** in a history without `gather_and_close`: no wrapper ever hits the `KeyError` of a missing
+registry entry and no `flush` — however many run concurrently — ever forgets a task that still holds its slot,
+whatever the mix of returns, exceptions, cancellations, callbacks and resizes -/
+theorem strictAll (base : Nat) (h : History) (hn : ∀ x ∈ h, x.admits noGac = true) (i : Nat) (c : Cfg) (p : Pool)
     (hc : ((World.init base).run h).cfgs[i]? = some c) (hp : ((World.init base).run h).pools[i]? = some p) :
     p.lost = false ∧ RegOK p ∧ LifeOK p := by
   obtain ⟨cap, hg⟩ := (World.reachable strictC_invariant base h hn).inv i c p hc hp
